@@ -38,6 +38,7 @@ type Call struct {
 	Res                                                     *gp.Snap `json:"res,omitempty"`
 	Token                                                   string   `json:"token,omitempty"`
 	Fin                                                     string   `json:"fin,omitempty"`
+	Fins []string `json:"fins,omitempty"` // all finalizers named by the call (Fin is the first)
 	Owner                                                   string   `json:"owner_opt"`
 	Phase                                                   string   `json:"phase_opt,omitempty"` // running | tearingDown | any
 	Mut                                                     string   `json:"mut,omitempty"`       // append | noop | fail
@@ -371,11 +372,22 @@ func (r *runner) step(root context.Context, rng *rand.Rand, actor, mix string, b
 			c.Fin = "u-" + c.Tag // unique names: none may be lost
 		}
 
+		c.Fins = []string{c.Fin}
+
+		// every third call names several finalizers at once (some may be there already, some not)
+		if rng.IntN(3) == 0 {
+			for _, f := range fins {
+				if f != c.Fin && rng.IntN(2) == 0 {
+					c.Fins = append(c.Fins, f)
+				}
+			}
+		}
+
 		var err error
 		if op == "addfin" {
-			err = r.st.AddFinalizer(ctx, ptr(id), c.Fin)
+			err = r.st.AddFinalizer(ctx, ptr(id), c.Fins...)
 		} else {
-			err = r.st.RemoveFinalizer(ctx, ptr(id), c.Fin)
+			err = r.st.RemoveFinalizer(ctx, ptr(id), c.Fins...)
 		}
 
 		r.finish(c, err)
